@@ -326,6 +326,26 @@ def differences(a, b, path, out, depth=0, owner=None, attr=None, visited=None, p
         if len(a) != len(b):
             rec('length %d became %d' % (len(a), len(b)))
             return
+        if len(a) > 1 and all(isinstance(x, Obj) for x in a.items + b.items):
+            # a list of objects (the polynomials of a Nasa9, the reactions of a set): when entries differ position by
+            # position and every original entry is found unchanged at another position, what happened is said once -
+            # the entries come back in another order - instead of once per number of every entry
+            def unchanged(x, y):
+                tmp = []
+                differences(x, y, path, tmp, depth + 1, owner, attr, set(visited), pub, name_of, num)
+                return not tmp
+            if not all(unchanged(x, y) for x, y in zip(a.items, b.items)):
+                now_at, free = [], list(range(len(b)))
+                for x in a.items:
+                    j = next((j_ for j_ in free if unchanged(x, b.items[j_])), None)
+                    if j is None:
+                        break
+                    free.remove(j)
+                    now_at.append(j)
+                if len(now_at) == len(a):
+                    rec('the same %d entries come back in another order (entry %s)' % (len(a), ', '.join(
+                        '%d at position %d' % (i, j) for i, j in enumerate(now_at) if i != j)))
+                    return
         for i, (x, y) in enumerate(zip(a.items, b.items)):
             differences(x, y, '%s[%d]' % (path, i), out, depth + 1, owner, attr, visited, pub, name_of, num)
         return
@@ -458,6 +478,18 @@ def builders(I, repo):
     def cov_model():
         return new('pmutt.mixture.cov.PiecewiseCovEffect', name_i='A', name_j='B',
                    intervals=ListV([C(0), D.sym('b1')]), slopes=arr('k', 2), name='cov1')
+
+    # the polynomials of a Nasa9 are kept in the order the user listed them, and that order is part of what the
+    # object is: the `nasas` getter returns them in it and a temperature that two intervals share (T_high of one is
+    # T_low of the next) is answered by the one listed first.  The instances above list them upwards; these list
+    # them downwards (the high-temperature interval first: bounds ranked by SEGMENT_BOUNDS, so that a writer or a
+    # reader that sorts is decided) - the decoded object must hold the same polynomials in the same order
+    add('Nasa9[three intervals listed from the highest temperature down]', lambda: new(
+        'pmutt.empirical.nasa.Nasa9', name='n9c', nasas=ListV([single9(2), single9(3), single9(4)]),
+        elements=DictV({'O': D.sym('nO')}), phase='G'))
+    add('Nasa9[two intervals, the upper one listed first]', lambda: new(
+        'pmutt.empirical.nasa.Nasa9', name='n9d', nasas=ListV([single9(5), single9(6)]),
+        elements=DictV({'O': D.sym('nO')}), phase='G'))
 
     def shomate(phase='G', misc=None, name='sh1'):
         v = arr('sh', 8)
@@ -790,6 +822,13 @@ def check(run, repo):
     VALID = {'w0': 5, 'w1': 7, 'b1': 3, 'wi': -5, 'wsub': 2, 'w0i': 5, 'w1i': 7, 'b1i': 3,
              'vdwa': Fr(547, 1000), 'vdwb': Fr(305, 10 ** 7), 'thE': 215, 'thD': 215, 'mw': Fr(1802, 100),
              'sden': Fr(25, 10 ** 10), 'rho': Fr(2145, 100)}
+    # the temperature bounds of the Nasa9 intervals (T_low < T_high within one, T_high of one is T_low of the next):
+    # intervals 0-1 are listed upwards, 2-3-4 and 5-6 downwards.  A to_dict/from_dict that orders the intervals by
+    # temperature is decided for these instead of being refused
+    SEGMENT_BOUNDS = {'T9l0': 100, 'T9h0': 500, 'T9l1': 500, 'T9h1': 1000,
+                      'T9l2': 1000, 'T9h2': 6000, 'T9l3': 500, 'T9h3': 1000, 'T9l4': 100, 'T9h4': 500,
+                      'T9l5': 500, 'T9h5': 1000, 'T9l6': 100, 'T9h6': 500}
+    VALID.update(SEGMENT_BOUNDS)
     order = RankOrder(dict(VALID), const_ranks=True)
     I0 = new_interp(repo, order)
     labels = [lab for lab, _ in builders(I0, repo)]
@@ -941,8 +980,7 @@ def check(run, repo):
             if name.startswith(pre):
                 return rk
         return None
-    order_h = RankOrder({**VALID, 'T': 300, 'T2': 700, 'P': 1, 'V': 1, 'n': 1,
-                         'T9h0': 500, 'T9l1': 500}, const_ranks=True, fallback=hist_rank)
+    order_h = RankOrder({**VALID, 'T': 300, 'T2': 700, 'P': 1, 'V': 1, 'n': 1}, const_ranks=True, fallback=hist_rank)
     def holds_objects(v, top=True):
         if isinstance(v, Obj):
             return (not top) or any(holds_objects(x, False) for x in v.attrs.values())
@@ -1181,6 +1219,10 @@ MUTANTS += [
     {'name': 'Nasa9.to_dict hands json a map object', 'expect': ('TABLE.encode', 'Nasa9'),
      'edits': [(N_, "        obj_dict['nasas'] = [nasa.to_dict() for nasa in self.nasas]\n",
                 "        obj_dict['nasas'] = map(SingleNasa9.to_dict, self.nasas)\n")]},
+    {'name': 'Nasa9.to_dict writes the polynomials ordered by temperature (an object that lists them downwards comes '
+             'back reordered)', 'expect': ('TABLE.roundtrip', 'Nasa9'),
+     'edits': [(N_, "        obj_dict['nasas'] = [nasa.to_dict() for nasa in self.nasas]\n",
+                "        obj_dict['nasas'] = [nasa.to_dict() for nasa in sorted(self.nasas, key=lambda nasa: nasa.T_low)]\n")]},
     {'name': 'Reactions.to_dict hands json a generator', 'expect': ('TABLE.encode', 'Reactions'),
      'edits': [(R_, "            'reactions': [reaction.to_dict() for reaction in self.reactions],\n",
                 "            'reactions': (reaction.to_dict() for reaction in self.reactions),\n")]},
